@@ -302,7 +302,35 @@ def check_C11(tier, seed):
     return res.finish()
 
 
-CHECKS = {"C04": check_C04, "C11": check_C11, "C01": check_C01, "C02": check_C02, "C16": check_C16, "C03": check_C03, "C12": check_C12, "C13": check_C13,
+def check_C18(tier, seed):
+    res = Result("C18", tier, seed, "model_checking")
+    binary = need_binary(res)
+    rng = random.Random(seed * 7919 + 18)
+    raw = os.path.join(C.OUT, "C18-vectors-raw.ndjson")
+    res.add_mc(run_mc("MC_Format", dict(EmitVec="TRUE"), workers=C.NCPU, vec_out=raw, timeout=3000))
+    run_pipeline(res, binary, "vec", vec_path=raw, validate=False)
+    os.remove(raw)
+    q = tier == "quick"
+    run_pipeline(res, binary, "render", gen_lines=gens.gen_render(rng, 20000 if q else 300000), nshards=8 if q else 16)
+    res.notes["rule"] = "vectors: corner grid of years (incl. i32 ends, 1..5 digit, negative) x dates x times (incl. second 60) x ns x offsets (0, +-1, around 60/3600/36000/86400/360000, i32 ends) with Read(Render(x)) = x model-checked; events: seeded date-times from timestamps and from fields with offsets over the whole i32 range; the rendered bytes must equal Render and the independent reader must recover fields/ns/offset"
+    return res.finish()
+
+
+def check_C09(tier, seed):
+    res = Result("C09", tier, seed, "model_checking")
+    binary = need_binary(res)
+    rng = random.Random(seed * 7919 + 9)
+    q = tier == "quick"
+    raw = os.path.join(C.OUT, "C09-vectors-raw.ndjson")
+    res.add_mc(run_mc("MC_TzString", dict(EmitVec="TRUE", MaxTok=3 if q else 4, PartA="TRUE", PartB="TRUE"), workers=C.NCPU, vec_out=raw, timeout=6000, xmx="8g"))
+    run_pipeline(res, binary, "vec", vec_path=raw, validate=False)
+    os.remove(raw)
+    run_pipeline(res, binary, "strings", gen_lines=gens.gen_tzstrings(rng, 6000 if q else 100000), nshards=12 if q else 16)
+    res.notes["rule"] = "vectors: sentences assembled from components carrying their denotation (all spellings of names, offsets, days, times; one or two slots varied at a time; truncations) and every string of <= MaxTok tokens of a 20-token alphabet, each through the settings path (extensions off), a v2 footer (off) and a v3 footer (on); events: seeded sentences, full component products and single/double byte edits incl. NUL, non-UTF-8 and interior whitespace"
+    return res.finish()
+
+
+CHECKS = {"C09": check_C09, "C18": check_C18, "C04": check_C04, "C11": check_C11, "C01": check_C01, "C02": check_C02, "C16": check_C16, "C03": check_C03, "C12": check_C12, "C13": check_C13,
           "C05": lambda t, s: check_find("C05", t, s), "C06": lambda t, s: check_find("C06", t, s), "C17": lambda t, s: check_find("C17", t, s),
           "C14": check_C14}
 
